@@ -56,9 +56,13 @@ LEVEL_TEXT = (
     "generated name (exactly F6e = forged_witness / forged_v1_witness / forged_edged_witness); 'never disturbs other handlers' at id level — "
     "isolation_ids_short_partial / _reformed_partial / _v1_hashed_partial within one kind of names (both verbatim / both re-formed / both "
     "verbatim with hashed V1 names), off the storages' own names (F6g = marker_witness, reserved_touch_witness, reserved_diffbase_witness; "
-    "name-level: touch_leaves_records, dstore_leaves_records). ORACLE/TIE ONLY (no theorem): 'identical across restarts' (fresh object, "
+    "name-level: touch_leaves_records, dstore_leaves_records). SEQUENCES (several handlers' operations accumulated in one patch, the way a cycle uses "
+    "the storages): the isolation theorems hold for ANY accumulated patch and so compose; spelled out as pending_store_survives_purge "
+    "(annotations: a pending record is read back although another handler is purged in the same patch), status_record_survives_other_purge / "
+    "_other_store (status storage, at the level of fetch: a purge that withdraws a pending record leaves the others alone). ORACLE/TIE ONLY (no theorem): 'identical across restarts' (fresh object, "
     "fresh interpreter with another hash seed, golden names incl. re-edged ones), unicode/JSON codec, statusClear and clear over trees, "
-    "removeEmptyStanzas beyond annotation lookups. Repaired F6/F6c/F6f/F6i are regression theorems/examples and corpus cases that must pass. "
+    "removeEmptyStanzas beyond annotation lookups, the mapping from constructor arguments / assigned fields to where the records live (the oracle "
+    "computes it from the documented signature and judges against it, not against the attributes the storage object shows). Repaired F6/F6c/F6f/F6i are regression theorems/examples and corpus cases that must pass. "
     "The model is tied to the real storages by a differential run on every check (scenarios + a dedicated run of make_v1_key/make_v2_key/"
     "make_keys/make_edged_name on edge-heavy ids); an independent Python oracle (strict: ids without a record read None, touch and "
     "diff-base store change no record, every generated name matches Kubernetes' qualified-name grammar) decides violations."
@@ -141,6 +145,14 @@ RULE = ("scenario = storage configuration (Annotations/Status/Smart/Multi as TRE
         "and the diff-base store/fetch through the real code and the model; distinct = distinct abstraction tuple "
         "(storage shape, prefix class, length band, id shape, record flags, body flags); non-trivial = hashed or two-key or "
         "marked or special-char id, or nulls/unicode in the record, or Multi storage, or pre-existing record. "
+        "Storage configurations include name x custom field templates, all Smart arguments, and fields ASSIGNED after construction (property setters); "
+        "records with messages of 1 KiB .. 128 KiB (exact lengths around powers of two) and 64..1000 sub-handler references, last-handled states up to ~250 KB; "
+        "TWINS on half of the objects: the same id's record under another operator's prefix (same name part), under status.<other name>.progress, and — on "
+        "ReplicaSets owned by Deployments — the owner's records and last-handled state under the UNMARKED names of the own prefix. "
+        "sequence run: 2-5 ids (sub-handlers, shared long prefixes) x 4-20 operations store/purge/touch/diff-base store/apply-the-patch over one body "
+        "(store-store-purge within one patch injected; storages reading the status stanza first over-represented), judged against a dictionary "
+        "(id -> last record) after every applied patch and after a final purge of everything in one patch; sequences whose ids share a name "
+        "(known classes F6b/d/e/g) are compared with the model but not judged. "
         "keys run: (prefix of 1..189 chars incl. 52..56, id) with the id's first/last character from alnum / each of ._-/<>: / non-ASCII "
         "alphanumerics (é ١ ß ²), lengths 0, 1..3, around the V1 room and its cut, 55..57, 62..64, long; a bad character placed at the cut "
         "position; all-special ids; direct make_edged_name calls with crafted names (already-hashed, empty, max_length <= 7 and negative)")
@@ -174,6 +186,10 @@ ASSUMPTIONS = [
     "V1 keys left by an earlier v1=True configuration are neither read nor purged after switching to v1=False",
     "a Multi storage headed by a no-write status storage would read stale status records first (not a shipped configuration: "
     "Smart puts the annotations first); roundtrip_multi* require a writing head",
+    "records and last-handled states larger than ~250 KB are not generated (Kubernetes limits all annotations of an object to 256 KiB: the PATCH "
+    "would be refused anyway); equality of what is read back is type-strict JSON equality (true is not 1)",
+    "the documented signature of the storages (argument names, defaults, '{name}' templates formatted for constructor arguments AND for fields "
+    "assigned later) is transcribed in the oracle (expected_leaves / expected_dleaves): a deliberate change of a default is a change of this pin",
 ]
 
 ALPHABET = "ABCDEFGHIJKLMNOPQRSTUVWXYZabcdefghijklmnopqrstuvwxyz0123456789_./<>-"
